@@ -145,13 +145,23 @@ def shape_str_equals_enum(maxlen):
                                  "exc": type(exc).__name__ if exc else None})
 
 
-def transform_key_str_equals_enum(maxlen, dst):
+def transform_key_str_equals_enum(maxlen, dst, form="str_str"):
+    """TransformKey / TransformDict with every mix of spellings: the symbolic string is one side of the key, the other
+    side is given as a string or as the enum member."""
     SymStr.hash_candidates = tuple(m.value for m in FrameID)
     s = symstr("s", maxlen)
+    other = dst.value if form.endswith("_str") or form.startswith("str_str") else dst
+    sym_is_src = not form.startswith("dst_")
+    if form == "str_enum":
+        other = dst
+    if form == "dst_enum":
+        other = dst
+    if form == "dst_str":
+        other = dst.value.upper()
     try:
-        k = TransformKey(s, dst.value)
+        k = TransformKey(s, other) if sym_is_src else TransformKey(other, s)
         exc = None
-    except REJECT as e:
+    except REJECT + (AttributeError, TypeError) as e:
         k, exc = None, e
     parts = {}
     hits = []
@@ -160,12 +170,13 @@ def transform_key_str_equals_enum(maxlen, dst):
         if hit is False:
             continue
         hits.append(hit)
-        ref = TransformKey(m, dst)
-        ok = k is not None and k.src is m and k.dst is dst and hash(k) == hash(ref) and (k == ref) is True \
-            and (k == (m, dst)) is True
+        ref = TransformKey(m, dst) if sym_is_src else TransformKey(dst, m)
+        ok = k is not None and (k.src is m and k.dst is dst if sym_is_src else k.src is dst and k.dst is m) \
+            and hash(k) == hash(ref) and (k == ref) is True and (k == ((m, dst) if sym_is_src else (dst, m))) is True
         parts[f"key_{m.name}"] = L.Implies(hit, ok)
-    parts["rejects_other"] = L.Implies(L.Not(L.Or(*hits)), exc is not None)
+    parts["rejects_other"] = L.Implies(L.Not(L.Or(*hits)), isinstance(exc, REJECT))
     return Out(parts=parts, obs={"src": getattr(getattr(k, "src", None), "name", None),
+                                 "dst": getattr(getattr(k, "dst", None), "name", None),
                                  "exc": type(exc).__name__ if exc else None})
 
 
@@ -179,8 +190,9 @@ def obligations(pid, tier):
         Obligation("shape_str_equals_enum", lambda maxlen: shape_str_equals_enum(maxlen),
                    cases=[dict(maxlen=maxlen)], use_shims=False,
                    desc="Shape(str, size) behaves as Shape(ShapeType member, size)"),
-        Obligation("transform_key_str_equals_enum", lambda maxlen, dst: transform_key_str_equals_enum(maxlen, dst),
-                   cases=[dict(maxlen=maxlen, dst=d) for d in (FrameID.MAP, FrameID.BASE_LINK)], use_shims=False,
+        Obligation("transform_key_str_equals_enum", transform_key_str_equals_enum,
+                   cases=[dict(maxlen=maxlen, dst=d, form=f) for d in (FrameID.MAP, FrameID.BASE_LINK)
+                          for f in ("str_str", "str_enum", "dst_enum", "dst_str")], use_shims=False,
                    desc="TransformKey(str, str) equals TransformKey(member, member) (same members, hash, ==)"),
     ]
     return obs
